@@ -18,11 +18,22 @@ U32 = 0xffffffff
 U64 = 2 ** 64 - 1
 
 
+FILE_SIZE = 300 * 1024          # more than one copy-data block (256 KiB)
+GROW_CAP = 8 * 1024 * 1024      # one request stream of a few hundred bytes must not make the file grow past this
+
+
 class StubSFTPServer(sftpmod.SFTPServer):
-    """no filesystem access: every operation answers from memory"""
+    """no filesystem access: every operation answers from memory.  There is ONE file (every open returns a handle
+    on it), held as a bytearray that reads and writes really act on, so that requests which copy a file onto itself
+    behave as on a real filesystem; a file that grows past GROW_CAP while a few hundred request bytes are processed
+    is unbounded work (reported as a spin)."""
+
+    def __init__(self, chan: Any):
+        super().__init__(chan)
+        self._mem = bytearray(b'abc' * (FILE_SIZE // 3))
 
     def _attrs(self) -> Any:
-        return sftpmod.SFTPAttrs(size=3, uid=0, gid=0, permissions=0o100644, atime=1, mtime=1)
+        return sftpmod.SFTPAttrs(size=len(self._mem), uid=0, gid=0, permissions=0o100644, atime=1, mtime=1)
 
     def open(self, path: bytes, pflags: int, attrs: Any) -> Any:
         return object()
@@ -34,9 +45,16 @@ class StubSFTPServer(sftpmod.SFTPServer):
         return None
 
     def read(self, file_obj: Any, offset: int, size: int) -> bytes:
-        return b'abc'[:size] if offset == 0 else b''
+        return bytes(self._mem[offset:offset + size])
 
     def write(self, file_obj: Any, offset: int, data: bytes) -> int:
+        if offset > GROW_CAP or offset + len(data) > GROW_CAP:
+            if offset <= len(self._mem):
+                raise C.Spin('one SFTP request stream made the file grow past %d bytes' % GROW_CAP)
+            return len(data)        # a sparse write far away: nothing to store
+        if offset > len(self._mem):
+            self._mem.extend(bytes(offset - len(self._mem)))
+        self._mem[offset:offset + len(data)] = data
         return len(data)
 
     def lstat(self, path: bytes) -> Any:
@@ -219,7 +237,10 @@ def gen_request(rng: random.Random, v: int, handles: List[bytes]) -> Tuple[int, 
         elif name.startswith(b'lsetstat'):
             f += [('str', path)] + gen_attrs(rng, v)
         elif name == b'copy-data':
-            f += [('str', h), ('u64', n64()), ('u64', n64()), ('str', h), ('u64', n64())]
+            # also: a file copied onto itself ahead of the read position (offsets around the 256 KiB block size)
+            h2 = rng.choice(handles + [h]) if rng.random() < 0.5 else h
+            f += [('str', h), ('u64', rng.choice([0, 0, n64()])), ('u64', rng.choice([0, 0, n64()])), ('str', h2),
+                  ('u64', rng.choice([262144, 262144, 1 << 20, 100, n64()]))]
         elif name.startswith(b'ranges'):
             f += [('str', h), ('u64', n64()), ('u64', n64())]
     else:
